@@ -649,7 +649,9 @@ def rule_templates(ctx):
             ctx.site(ub), "universal_closure quantifies exactly the free variables of the formula, universally")
     check_conjoin(ctx)
     # program: all or nothing
-    v, b = ev(fx, "natural", [P("$p")])
+    # through the public entry (`impl Natural for Program`), whether the work is done there or in a free function it calls
+    b = fx.fn("natural", impl_self="syntax_tree::asp::mini_gringo::Program", impl_trait=NT + "Natural")
+    v = reduce(sym.Eval(fx, inline_depth=2, inline=lambda dp: dp == NT + "natural").function(b, [P("$p")]))
     RULES_ = ("fieldof", P("$p"), "rules")
     got_prog = comp.canon(comp.exits_as_try(v))
     want_prog = C("Option::Some", **{"0": C("Theory", formulas=("coll", (((RULES_,), ((frozenset(), ("try", ("call", "natural::natural_rule", (("at", RULES_),)))),)),)))})
